@@ -1,2 +1,272 @@
+"""C20, further vendor helpers: Intel (IntelClocking.compute_config/do_finalize) and Lattice NX (NXPLL.compute_config)."""
+import builtins, itertools, math
+from fractions import Fraction
+import z3
+from vf.runner import Job
+from vf import pysym
+from vf.pysym import run_pysym, OR, AND, NOT, SymNum, Sym
+
+SL = Fraction(1, 10**9)
+CTX = None
+_fresh = [0]
+
+FUNCS = ["litex.soc.cores.clock.intel_common.IntelClocking.compute_config", "litex.soc.cores.clock.intel_common.IntelClocking.do_finalize",
+         "litex.soc.cores.clock.intel_cyclone4.CycloneIVPLL", "litex.soc.cores.clock.intel_cyclone5.CycloneVPLL", "litex.soc.cores.clock.intel_max10.Max10PLL",
+         "litex.soc.cores.clock.lattice_nx.NXPLL.compute_config", "litex.soc.cores.clock.common.clkdiv_range"]
+
+
+def rdir():
+    import os
+    return os.environ.get("VERIF_REPLAY_DIR") or None
+
+
+def within(fo, f, m, slack):
+    tol = f * (Fraction(m) + slack)
+    return AND(fo - f <= tol, f - fo <= tol)
+
+
+class _Math:
+    """math.ceil/floor that also accept symbolic reals (integer-sorted terms, no fork)"""
+
+    def __getattr__(self, n):
+        return getattr(math, n)
+
+    @staticmethod
+    def ceil(x):
+        if isinstance(x, Sym):
+            return SymNum(-z3.ToInt(-x.e))
+        return math.ceil(x)
+
+    @staticmethod
+    def floor(x):
+        if isinstance(x, Sym):
+            return SymNum(z3.ToInt(x.e))
+        return math.floor(x)
+
+
+class Rank:
+    """dictionary key standing for the (symbolic) ranking value of one valid configuration: hashable by identity, ordered symbolically"""
+
+    def __init__(self, v):
+        self.v = v
+
+    def __hash__(self):
+        return id(self)
+
+    def __eq__(self, o):
+        return self is o
+
+    def __lt__(self, o):
+        return bool(self.v < o.v)
+
+    def __gt__(self, o):
+        return bool(self.v > o.v)
+
+
+def make_range(lo, hi):
+    """range() whose symbolic bounds are concretised by forking over the window [lo, hi] (values outside it give an empty range either way)"""
+    def sym_range(*a):
+        if not any(isinstance(x, Sym) for x in a):
+            return builtins.range(*a)
+        start, stop = a
+        if isinstance(start, Sym):
+            v0 = hi
+            for v in builtins.range(lo, hi):
+                if pysym.CUR.branch(start.e == v):
+                    v0 = v
+                    break
+            start = v0
+        if isinstance(stop, Sym):
+            v1 = lo
+            for v in builtins.range(lo + 1, hi + 1):
+                if pysym.CUR.branch(stop.e == v):
+                    v1 = v
+                    break
+            stop = v1
+        return builtins.range(start, stop)
+    return sym_range
+
+
+def sym_float(x):
+    if x == "inf":
+        return Fraction(10**40)
+    return builtins.float(x)
+
+
+def sym_int(x):
+    if isinstance(x, Sym):
+        if x.e.sort() == z3.IntSort():
+            return x
+        if pysym.CUR.branch(x.e >= 0):
+            return SymNum(z3.ToInt(x.e))
+        return SymNum(-z3.ToInt(-x.e))
+    return builtins.int(x)
+
+
+def stubs(window_n):
+    from litex.soc.cores.clock import common, intel_common, lattice_nx
+    for m in (common, intel_common, lattice_nx):
+        for n in ("compute_config_log", "register_clkin_log", "create_clkout_log"):
+            if hasattr(m, n):
+                setattr(m, n, lambda *a, **k: None)
+    real_gm = intel_common.__dict__.get("_real_geometric_mean") or intel_common.geometric_mean
+    intel_common._real_geometric_mean = real_gm
+
+    def gm(vals):
+        # the ranking of the valid configurations does not matter for soundness/completeness: an arbitrary (fresh symbolic) rank
+        # over-approximates every possible selection among the valid configurations
+        if any(isinstance(v, Sym) for v in vals):
+            _fresh[0] += 1
+            return Rank(CTX.real("rank%d" % _fresh[0], 0, 10))
+        return real_gm(vals)
+    intel_common.geometric_mean = gm
+    intel_common.math = _Math()
+    intel_common.range = make_range(*window_n)
+    intel_common.float = sym_float
+    intel_common.int = sym_int
+
+
+def job_intel(modname, clsname, ckw, win, nout, margin, tag):
+    """win = dict(n=(lo, cnt), m=(lo, cnt), c=(lo, cnt))"""
+    import importlib
+    from migen import Signal
+    (n0, nw), (m0, mw), (c0, cw) = win["n"], win["m"], win["c"]
+    stubs((n0, n0 + nw))
+    mod = importlib.import_module("litex.soc.cores.clock." + modname)
+    cls = getattr(mod, clsname)
+
+    def body(ctx):
+        global CTX
+        CTX = ctx
+        _fresh[0] = 0
+        pll = cls(**ckw)
+        pll.n_div_range = (n0, n0 + nw)
+        pll.m_div_range = (m0, m0 + mw)
+        pll.c_div_range = (c0, c0 + cw)
+        cmin, cmax = pll.clkin_freq_range
+        clkin = ctx.real("clkin", Fraction(cmin), Fraction(cmax))
+        pll.clkin = Signal()
+        pll.clkin_freq = clkin
+        omin, omax = pll.clko_freq_range
+        fs_ = []
+        for i in range(nout):
+            f = ctx.real("f%d" % i, Fraction(max(omin, 1e6)), Fraction(omax))
+            fs_.append(f)
+            pll.clkouts[i] = (Signal(), f, 0, ctx.exact(margin))
+        pll.nclkouts = nout
+        vmin, vmax = pll.vco_freq_range
+        pmin, pmax = pll.clkin_pfd_freq_range
+        vm = Fraction(pll.vco_margin)
+        ns = list(range(n0, n0 + nw))
+        ms = list(range(m0, m0 + mw))
+        cs = list(range(c0, c0 + cw))
+
+        def spec(n, m, cl, slack):
+            vco = clkin * m / n
+            pfd = clkin / n
+            c = [vco >= Fraction(vmin) * (1 + vm) * (1 - slack), vco <= Fraction(vmax) * (1 - vm) * (1 + slack),
+                 pfd >= Fraction(pmin) * (1 - slack), pfd <= Fraction(pmax) * (1 + slack)]
+            for f, cc in zip(fs_, cl):
+                c.append(within(vco / cc, f, margin, slack))
+            return AND(*c)
+        try:
+            cfg = pll.compute_config()
+        except ValueError:
+            ctx.event("refused")
+            anyok = [spec(n, m, cl, -SL) for n in ns for m in ms for cl in itertools.product(cs, repeat=nout)]
+            return dict(refused_only_if_no_setting_in_window=NOT(OR(*anyok)))
+        ctx.event("configured")
+        m = cfg["m"]
+        divs = [cfg["clk%d_divide" % i] for i in range(nout)]
+        # the input divider n is folded into the per-output dividers (divide = c * n): some n of the window must explain all of them
+        expl = []
+        for n in ns:
+            if all(d % n == 0 and (d // n) in cs for d in divs):
+                expl.append(spec(n, m, [d // n for d in divs], SL))
+        res = dict(dividers_inside_ranges=(m in ms) and bool(expl), outputs_within_margin_and_vco_pfd_in_range=OR(*expl) if expl else False)
+        outs = [within(clkin * m / d, f, margin, SL) for f, d in zip(fs_, divs)]
+        res["output_frequency_from_emitted_ratio_within_margin"] = AND(*outs)
+        try:
+            pll.finalize()
+            p = pll.params
+            same = True
+            for i in range(nout):
+                same = same and (p.get("p_CLK%d_DIVIDE_BY" % i) == divs[i]) and (p.get("p_CLK%d_MULTIPLY_BY" % i) == m)
+            res["instance_parameters_equal_config"] = same
+        except Exception as e:
+            if isinstance(e, pysym.Unsupported):
+                raise
+            res["instance_parameters_equal_config"] = False
+        return res
+    checks = ["dividers_inside_ranges", "outputs_within_margin_and_vco_pfd_in_range", "output_frequency_from_emitted_ratio_within_margin", "instance_parameters_equal_config",
+              "refused_only_if_no_setting_in_window"]
+    return run_pysym("%s_%s" % (clsname.lower(), tag), body, checks, required_events=["configured", "refused"], funcs=FUNCS,
+                     cfg=dict(cls=clsname, ctor=ckw, window=win, outputs=nout, margin=margin), replay_dir=rdir(), max_paths=400000)
+
+
+def job_nx(win, nout, margin, tag):
+    from migen import Signal
+    stubs((1, 2))
+    from litex.soc.cores.clock.lattice_nx import NXPLL
+
+    def body(ctx):
+        pll = NXPLL()
+        (i0, iw), (b0, bw), (o0, ow) = win["clki_div"], win["clkfb_div"], win["clko_div"]
+        pll.clki_div_range = (i0, i0 + iw)
+        pll.clkfb_div_range = (b0, b0 + bw)
+        pll.clko_div_range = (o0, o0 + ow)
+        cmin, cmax = pll.clki_freq_range
+        clkin = ctx.real("clkin", Fraction(cmin), Fraction(cmax))
+        pll.clkin_freq = clkin
+        omin, omax = pll.clko_freq_range
+        fs_ = []
+        for i in range(nout):
+            f = ctx.real("f%d" % i, Fraction(omin), Fraction(omax))
+            fs_.append(f)
+            pll.clkouts[i] = (Signal(), f, 0, ctx.exact(margin))
+        pll.nclkouts = nout
+        vmin, vmax = pll.vco_out_freq_range
+        pmin, pmax = pll.vco_in_freq_range
+
+        def spec(ci, cb, ds, slack, with_pfd=True):
+            pfd = clkin / ci
+            vco = pfd * cb
+            c = [vco >= Fraction(vmin) * (1 - slack), vco <= Fraction(vmax) * (1 + slack)]
+            if with_pfd:
+                c += [pfd >= Fraction(pmin) * (1 - slack), pfd <= Fraction(pmax) * (1 + slack)]
+            for f, d in zip(fs_, ds):
+                c.append(within(vco / d, f, margin, slack))
+            return AND(*c)
+        try:
+            cfg = pll.compute_config()
+        except ValueError:
+            ctx.event("refused")
+            anyok = [spec(ci, cb, ds, -SL) for ci in range(i0, i0 + iw) for cb in range(b0, b0 + bw) for ds in itertools.product(range(o0, o0 + ow), repeat=nout)]
+            return dict(refused_only_if_no_setting_in_window=NOT(OR(*anyok)))
+        ctx.event("configured")
+        ci, cb = cfg["clki_div"], cfg["clkfb_div"]
+        ds = [cfg["clko%d_div" % i] for i in range(nout)]
+        inr = ci in range(i0, i0 + iw) and cb in range(b0, b0 + bw) and all(d in range(o0, o0 + ow) for d in ds)
+        pfd = clkin / ci
+        return dict(dividers_inside_ranges=inr, outputs_within_margin_and_vco_in_range=spec(ci, cb, ds, SL, with_pfd=False),
+                    phase_detector_input_inside_declared_range=AND(pfd >= Fraction(pmin) * (1 - SL), pfd <= Fraction(pmax) * (1 + SL)))
+    checks = ["dividers_inside_ranges", "outputs_within_margin_and_vco_in_range", "phase_detector_input_inside_declared_range", "refused_only_if_no_setting_in_window"]
+    return run_pysym("nxpll_%s" % tag, body, checks, required_events=["configured", "refused"], funcs=FUNCS, cfg=dict(window=win, outputs=nout, margin=margin), replay_dir=rdir(), max_paths=300000)
+
+
 def jobs(tier):
-    return []
+    T = tier == "thorough"
+    js = []
+    I = [("intel_cyclone4", "CycloneIVPLL", dict(speedgrade="-6"), dict(n=(1, 2), m=(12, 2), c=(2, 3)), 1, 1e-2, "low_1out"),
+         ("intel_max10", "Max10PLL", dict(speedgrade="-6"), dict(n=(1, 2), m=(20, 2), c=(4, 2)), 2, 1e-2, "mid_2out")]
+    if T:
+        I += [("intel_cyclone5", "CycloneVPLL", dict(speedgrade="-C6"), dict(n=(1, 3), m=(10, 3), c=(2, 3)), 1, 1e-3, "low_1out"),
+              ("intel_cyclone4", "CycloneIVPLL", dict(speedgrade="-8L"), dict(n=(2, 2), m=(30, 3), c=(3, 3)), 2, 1e-2, "mid_2out"),
+              ("intel_cyclone4", "CycloneIVPLL", dict(speedgrade="-6"), dict(n=(511, 2), m=(511, 2), c=(511, 2)), 1, 1e-2, "high_1out")]
+    for (modn, cls, ckw, win, nout, mg, tag) in I:
+        js.append(Job("%s_%s" % (cls.lower(), tag), job_intel, dict(modname=modn, clsname=cls, ckw=ckw, win=win, nout=nout, margin=mg, tag=tag), cost=40 * nout * nout, timeout_s=7000))
+    js.append(Job("nxpll_low_1out", job_nx, dict(win=dict(clki_div=(1, 2), clkfb_div=(80, 3), clko_div=(1, 3)), nout=1, margin=1e-2, tag="low_1out"), cost=20, timeout_s=7000))
+    if T:
+        js.append(Job("nxpll_mid_2out", job_nx, dict(win=dict(clki_div=(2, 2), clkfb_div=(30, 2), clko_div=(4, 3)), nout=2, margin=1e-2, tag="mid_2out"), cost=100, timeout_s=7000))
+        js.append(Job("nxpll_high_1out", job_nx, dict(win=dict(clki_div=(127, 2), clkfb_div=(127, 2), clko_div=(126, 3)), nout=1, margin=1e-3, tag="high_1out"), cost=30, timeout_s=7000))
+    return js
